@@ -1,6 +1,6 @@
 (* Extraction of the executable models and spec oracles for the correspondence driver.
    ExtrOcamlBasic only: nat, positive, N, Z stay the extracted inductive types; no Extract Constant of ours. *)
-From BG Require Import Base DirectedModel DirectedSpec UndirectedModel UndirectedSpec MultiModel WeightedModel MultiSpec Instances.
+From BG Require Import Base DirectedModel DirectedSpec UndirectedModel UndirectedSpec MultiModel WeightedModel MultiSpec ForcedSpec Instances.
 From Coq Require Extraction ExtrOcamlBasic.
 Extraction Language OCaml.
-Extraction "model.ml" pinned repaired d_trace d_spec_trace u_trace_z u_spec_trace dm_trace_z um_trace_z dw_trace_z uw_trace_z m_spec_trace w_spec_trace.
+Extraction "model.ml" pinned repaired d_trace d_spec_trace u_trace_z u_spec_trace dm_trace_z um_trace_z dw_trace_z uw_trace_z m_spec_trace w_spec_trace d_fspec_trace u_fspec_trace m_fspec_trace w_fspec_trace.
